@@ -114,7 +114,16 @@ def configs(tier):
         if tier == "quick" and (cks, nak) not in (("null", "def"), ("mod", "imm")):
             continue
         add(link="k", K=2, mode="ack", nak=nak, size=2 * L + 1, cks=cks, ack_limit=3, nak_limit=3, kinds=("drop", "dup", "delay"))
+    # cancel request at either entity at any point, combined with link faults: a cancelled transfer never turns into a reported success
+    for nak in ("imm", "def"):
+        add(link="k", K=1, mode="ack", nak=nak, size=L + 1, ack_limit=2, nak_limit=2, kinds=("drop", "dup", "delay"), cancels=1)
+    for closure in (False, True):
+        add(link="k", K=1, mode="unack", closure=closure, size=L + 1, check_limit=2, kinds=("drop", "dup", "delay"), cancels=1)
     if tier == "thorough":
+        for nak in ("imm", "def"):
+            add(link="k", K=2, mode="ack", nak=nak, size=L + 1, ack_limit=3, nak_limit=3, kinds=("drop", "dup", "delay"), cancels=1)
+            add(link="chaos", mode="ack", nak=nak, size=L + 1, cks="crc32", ack_limit=1, nak_limit=1, kinds=(), cancels=1)
+        add(link="chaos", mode="unack", closure=True, size=L + 1, cks="crc32", check_limit=2, kinds=(), cancels=1)
         add(link="k", K=3, mode="ack", nak="imm", size=2 * L + 1, cks="null", ack_limit=4, nak_limit=4, kinds=("drop", "delay"))
         for nak in ("imm", "def"):
             add(link="chaos", mode="ack", nak=nak, size=L, ack_limit=2, nak_limit=2, kinds=flips)
